@@ -25,7 +25,8 @@ def run(ctx):
   for c, r in zip(cfgs, results):
     if r.violated:
       raise tlc.TLCError("Framing.tla violates %s (%s):\n%s" % (r.violated, c, r.error_trace[:2000]))
-    tlc.require_coverage(r, ["Choose"], c)
+    if r.coverage.get("Choose", (0, 0))[1] + r.coverage.get("ChooseAny", (0, 0))[1] == 0:
+      raise tlc.TLCError("vacuous model run %s: Choose never taken" % c)
     if r.coverage.get("Read", (0, 0))[1] + r.coverage.get("ReadAny", (0, 0))[1] == 0:   # TLC names it either way
       raise tlc.TLCError("vacuous model run %s: Read never taken" % c)
     ctx.add_model("Framing " + c, r)
